@@ -197,7 +197,16 @@ class _Parser:
             return ("let", name, mutable, e, line)
         if self.at("for"):
             self.eat("for")
-            var = self.ident()
+            if self.at("("):
+                self.eat("(")
+                names = [self.ident()]
+                while self.at(","):
+                    self.eat(",")
+                    names.append(self.ident())
+                self.eat(")")
+                var = tuple(names)
+            else:
+                var = self.ident()
             self.eat("in")
             it = self.expr(no_struct=True)
             body = self.block()
@@ -414,9 +423,22 @@ class _Parser:
             if self.at("&"):
                 self.eat("&")
             var = self.ident()
+            if self.at(":"):        # `|r: &Arc<Route<T>>|`: the annotation is skipped
+                depth = 0
+                while not (self.at("|") and depth == 0):
+                    if self.peek().kind == "eof":
+                        self.fail("unterminated closure header")
+                    if self.at("<"):
+                        depth += 1
+                    elif self.at(">"):
+                        depth -= 1
+                    self.i += 1
             self.eat("|")
             body = self.expr()
             return ("closure", var, body, tok.line)
+        if tok.text == "(" and self.at(")", 1):
+            self.i += 2
+            return ("unit", tok.line)
         if tok.text == "(":
             self.eat("(")
             e = self.expr()
@@ -648,11 +670,24 @@ class _Tr:
                 return rust, sd
         return None, None
 
+    def abstract_call(self, e):
+        if e[0] == "call":
+            return self.cfg.get("abstract_calls", {}).get(_ast_text(e[1]) + "." + e[2])
+        return None
+
+    def kept_args(self, args):
+        return [a for a in args if _ast_text(a) not in self.cfg.get("dropped_args", ())]
+
     def infer(self, e, name=None):
         k = e[0]
         ab = self.cfg.get("abstract", {}).get(_ast_text(e))
         if ab:
             return ab[1]
+        ac = self.abstract_call(e)
+        if ac:
+            return ac[1]
+        if k == "call" and e[2] == "into" and not e[3]:
+            return self.infer(e[1], name)
         if k == "field" and not (e[1][0] == "var" and e[1][1] == "self"):
             try:
                 bt = self.infer(e[1])
@@ -736,6 +771,13 @@ class _Tr:
         ab = self.cfg.get("abstract", {}).get(_ast_text(e))
         if ab:
             return ab[0]
+        ac = self.abstract_call(e)
+        if ac:
+            return (f"{ac[0]} " + " ".join(self.atom(a) for a in self.kept_args(e[3]))).strip()
+        if k == "call" and e[2] == "into" and not e[3]:
+            return self.expr(e[1])
+        if k == "unit":
+            return "()"
         if k == "var" and e[1] == "None":
             return "none"
         if k == "some":
@@ -782,12 +824,15 @@ class _Tr:
                     lst = lst[1]
                 if lst[0] == "ref":
                     lst = lst[1]
-                if lst[0] != "var" or self.vtypes.get(lst[1]) != "List (String × String)":
-                    self.fail(f"`.{name}(..)` only over a header list", line)
+                if lst[0] != "var" or not (self.vtypes.get(lst[1]) or "").startswith("List "):
+                    self.fail(f"`.{name}(..)` only over a list variable", line)
                 saved, saved_h = dict(self.scope), set(self.header_vars)
-                lv = self.fresh("String × String")
+                elem = self.opt_inner("Option " + self.vtypes[lst[1]][len("List "):])
+                lv = self.fresh(elem)
                 self.scope[var] = lv
-                self.header_vars.add(var)
+                self.vtypes[var] = elem
+                if elem == "String × String":
+                    self.header_vars.add(var)
                 b = self.expr(body)
                 self.scope, self.header_vars = saved, saved_h
                 fn = {"any": "any", "all": "all", "find": "find?"}[name]
@@ -816,7 +861,7 @@ class _Tr:
             if name in self.cfg.get("extern_calls", {}):
                 fn, ret, recv = self.cfg["extern_calls"][name]
                 if len(ret) == 1 and self.infer(base) == recv:
-                    return (f"{fn} {self.atom(base)} " + " ".join(self.atom(a) for a in args)).strip()
+                    return (f"{fn} {self.atom(base)} " + " ".join(self.atom(a) for a in self.kept_args(args))).strip()
             if name in ("is_some", "is_none") and not args:
                 return f"{self.atom(base)}.{'isSome' if name == 'is_some' else 'isNone'}"
             self.fail(f"method `.{name}(..)` is not in the subset", line)
@@ -941,6 +986,9 @@ class _Tr:
                     walk_block(st[3])
             elif k == "for":
                 walk_block(st[3])
+            elif k == "match":
+                for arm in st[2]:
+                    walk_block(arm[1] if arm[1][1] is None or arm[1][1][0] in ("if",) else (arm[1][0], None))
             elif k == "loop":
                 walk_block(st[1])
 
@@ -1188,7 +1236,43 @@ class _Tr:
                 self.fail("code after `loop`", st[2])
             return self.loop_lines(st, ind)
         if k == "match":
-            self.fail("`match` is only supported at the top level of the function", st[3])
+            _, scrut, arms, line = st
+            base = scrut
+            while base[0] == "ref" or (base[0] == "call" and base[2] in ("as_ref", "as_deref", "clone") and not base[3]
+                                       and not self.abstract_call(base) and _ast_text(base) not in self.cfg.get("abstract", {})):
+                base = base[1]
+            ty = self.infer(base)
+            byname = {a[0]: a for a in arms}
+            if not ty.startswith("Option ") or sorted(byname) != ["None", "Some"] or len(arms) != 2 \
+                    or byname["None"][3] is not None or byname["Some"][3] is None:
+                self.fail("a `match` statement must be on a modelled `Option` with arms `None` and `Some(x)`", line)
+
+            def stmts_of(arm):
+                b = arm[1]
+                if b[1] is None or b[1][0] == "unit":
+                    return b[0]
+                if b[1][0] == "if" and b[1][2][1] is None:
+                    return b[0] + [b[1]]
+                self.fail("arm of a `match` statement with a value", arm[2])
+            none_st, some_st = stmts_of(byname["None"]), stmts_of(byname["Some"])
+            if self.escapes((none_st, None)) or self.escapes((some_st, None)):
+                self.fail("`return` / `break` / `continue` inside a `match` statement", line)
+            sc = self.atom(base)
+            saved = dict(self.scope)
+            inner = self.opt_inner(ty)
+            v = self.fresh(inner)
+            self.scope[byname["Some"][3]] = v
+            self.vtypes[byname["Some"][3]] = inner
+            names = self.order(set(self.assigned((none_st, None))) | set(self.assigned((some_st, None))))
+            if not names:
+                self.fail("a `match` statement that assigns nothing", line)
+            tup = self.tuple_of(names)
+            b_some = self.seq(some_st, None, lambda _v: tup, k_break, ind + 2)
+            self.scope = dict(saved)
+            b_none = self.seq(none_st, None, lambda _v: tup, k_break, ind + 2)
+            self.scope = saved
+            lines = [pad + f"let {tup} :=", pad + f"  match {sc} with", pad + "  | none =>"] + b_none + [pad + f"  | some {v} =>"] + b_some
+            return lines + self.seq(rest, tail, k_end, k_break, ind)
         self.fail(f"statement `{k}` is not in the subset", st[-1])
 
     def if_lines(self, node, rest, tail, k_end, k_break, ind, is_tail):
@@ -1282,18 +1366,33 @@ class _Tr:
         self.loop_count += 1
         fname = f"{self.cfg['name']}Loop{self.loop_count}"
         saved, saved_h = dict(self.scope), set(self.header_vars)
-        ev = self.fresh(elem)
-        self.scope[var] = ev
-        self.vtypes[var] = elem
-        if elem == "String × String":
-            self.header_vars.add(var)
+        if isinstance(var, tuple):
+            parts = [x.strip() for x in elem.split(" × ")]
+            if len(parts) != len(var) or any(" " in x for x in parts):
+                self.fail("tuple pattern in `for` over a list whose elements are not a flat product of type names", line)
+            evs = []
+            for x, t in zip(var, parts):
+                l = self.fresh(t)
+                self.scope[x] = l
+                self.vtypes[x] = t
+                evs.append(l)
+            ev = "(" + ", ".join(evs) + ")"
+            ev_names = evs
+        else:
+            ev = self.fresh(elem)
+            self.scope[var] = ev
+            self.vtypes[var] = elem
+            ev_names = [ev]
+            if elem == "String × String":
+                self.header_vars.add(var)
         state = self.order(set(self.assigned(body)))
         if not state:
             self.fail("`for` loop that assigns nothing", line)
         tup = self.tuple_of(state)
         leans = [self.lean_of(x) for x in state]
         fixed = " ".join(n for n, _ in self.cfg["params"] + self.cfg.get("loop_params", []))
-        rec = f"{fname} {fixed} rest " + " ".join(leans)
+        mark = f"⟪{fname}⟫"          # replaced below by the free locals the body turns out to use
+        rec = f"{fname} {fixed}{mark} rest " + " ".join(leans)
         # a `return E` inside the loop is allowed when the loop's result is the function's: `for ..; x` with state [x]
         lr = (not rest and tail is not None and tail[0] == "var" and len(state) == 1 and state[0] == tail[1]
               and self.k_continue is None and not self.value_depth)
@@ -1301,11 +1400,25 @@ class _Tr:
         self.k_continue, self.loop_return = rec, lr
         body_lines = self.seq(body[0], None, lambda v: rec, lambda: tup, 2)
         self.k_continue, self.loop_return = saved_k, saved_lr
+        # free locals / arguments / self fields of the enclosing function used by the body become extra parameters
+        cands = {}
+        for rust, lean in saved.items():
+            if rust in self.vtypes:
+                cands[lean] = self.vtypes[rust]
+        for n, t in self.cfg.get("arg_types", []):
+            cands.setdefault(n, t)
+        fixed_names = set(n for n, _ in self.cfg["params"] + self.cfg.get("loop_params", []))
+        text = "\n".join(body_lines)
+        extra = [(n, t) for n, t in cands.items() if n not in leans and n not in ev_names and n not in fixed_names
+                 and re.search(r"(?<![A-Za-z0-9_.'])" + re.escape(n) + r"(?![A-Za-z0-9_'])", text)]
+        xs = "".join(" " + n for n, _ in extra)
+        body_lines = [l.replace(mark, xs) for l in body_lines]
+        rec = rec.replace(mark, xs)
         self.scope, self.header_vars = saved, saved_h
         types = [self.vtypes[x] if not x.startswith("self.") else self.cfg["self_field_types"][x[5:]] for x in state] \
             if any(x.startswith("self.") for x in state) else [self.vtypes[x] for x in state]
         res = types[0] if len(types) == 1 else " × ".join(f"{t}" if " " not in t else f"({t})" for t in types)
-        par = " ".join(f"({n} : {t})" for n, t in self.cfg["params"] + self.cfg.get("loop_params", []))
+        par = " ".join(f"({n} : {t})" for n, t in self.cfg["params"] + self.cfg.get("loop_params", []) + extra)
         tp = self.cfg.get("tparams", "")
         sig = " → ".join([f"List ({elem})"] + [t if " " not in t else f"({t})" for t in types] + [res])
         tm = re.fullmatch(r"\{([^:{}]+): Type\}", tp)
@@ -1316,7 +1429,7 @@ class _Tr:
                "  | [], " + ", ".join(leans) + " => " + tup,
                f"  | {ev} :: rest, " + ", ".join(leans) + " =>"] + body_lines
         self.aux.append(aux)
-        call = f"{fname} {fixed} {it_lean} " + " ".join(leans)
+        call = f"{fname} {fixed}{xs} {it_lean} " + " ".join(leans)
         return [pad + f"let {tup} := {call}"] + self.seq(rest, tail, k_end, k_break, ind)
 
     def loop_lines(self, st, ind):
@@ -1906,6 +2019,104 @@ def extract_visitor(read, fail):
         parser, stmts, tail = _translate(read, fail, path, hdr, cfg)
         out.append("")
         out += _emit(cfg, parser, stmts, tail, fail, f"`{struct}::first`; translated from {path}.")
+    return out
+
+
+def extract_router(read, fail):
+    out = ["-- Rust -> Lean translation: `match_request` of the host / scheme / method / ip layers of the router "
+           "(tools/consts.d/w4_translate_router.py, translator in w4_translate.py).  `next m` = the next layer's "
+           "`m.match_request(request)`; map / tree lookups are parameters; a `HashMap` iterated by the code is the list of its entries."]
+    d = "src/router/request_matcher/"
+    sig = r"pub fn match_request\(&self, (\w+): &Request\) -> Vec<Arc<Route<T>>> \{"
+    nxt = {"match_request": ("next", ["List ρ"], "μ")}
+
+    # HostMatcher
+    path = d + "host.rs"
+    src = read(path)
+    if not re.search(r"pub struct HostMatcher<T> \{\s*static_hosts: HashMap<String, IpMatcher<T>>,\s*regex_tree_rule: UniqueRegexTreeMap<IpMatcher<T>>,\s*"
+                     r"any_host: IpMatcher<T>,\s*always_match_any_host: bool,", src):
+        fail(f"{path}: `HostMatcher` no longer has the modelled fields")
+    hdr, (req,) = _sig(src, path, sig, fail)
+    cfg = {
+        "name": "genHostMatchRequest", "tparams": "{ρ μ η : Type}", "params": [("next", "μ → List ρ")], "args": {},
+        "arg_types": [("treeFind", "η → List μ"), ("staticGet", "η → Option μ"), ("anyHost", "μ"), ("alwaysMatchAnyHost", "Bool"),
+                      ("host", "Option η")],
+        "self_fields": {"any_host": "anyHost", "always_match_any_host": "alwaysMatchAnyHost"},
+        "self_field_types": {"any_host": "μ", "always_match_any_host": "Bool"},
+        "abstract": {f"{req}.host()": ("host", "Option η")},
+        "abstract_calls": {"self.regex_tree_rule.find": ("treeFind", "List μ"), "self.static_hosts.get": ("staticGet", "Option μ")},
+        "extern_calls": nxt, "dropped_args": (req,), "vec_type": "List ρ",
+        "result_type": "List ρ", "return": lambda tr, v: v,
+    }
+    parser, stmts, tail = _translate(read, fail, path, hdr, cfg)
+    out.append("")
+    out += _emit(cfg, parser, stmts, tail, fail,
+                 "`HostMatcher::match_request`: `treeFind h` = `regex_tree_rule.find(h)`, `staticGet h` = `static_hosts.get(h)`; "
+                 f"translated from {path}.")
+
+    # SchemeMatcher
+    path = d + "scheme.rs"
+    src = read(path)
+    if not re.search(r"pub struct SchemeMatcher<T> \{\s*schemes: HashMap<String, HostMatcher<T>>,\s*any_scheme: HostMatcher<T>,", src):
+        fail(f"{path}: `SchemeMatcher` no longer has the modelled fields")
+    hdr, (req,) = _sig(src, path, sig, fail)
+    cfg = {
+        "name": "genSchemeMatchRequest", "tparams": "{ρ μ η : Type}", "params": [("next", "μ → List ρ")], "args": {},
+        "arg_types": [("schemesGet", "η → Option μ"), ("anyScheme", "μ"), ("scheme", "Option η")],
+        "self_fields": {"any_scheme": "anyScheme"}, "self_field_types": {"any_scheme": "μ"},
+        "abstract": {f"{req}.scheme()": ("scheme", "Option η")},
+        "abstract_calls": {"self.schemes.get": ("schemesGet", "Option μ")},
+        "extern_calls": nxt, "dropped_args": (req,), "vec_type": "List ρ",
+        "result_type": "List ρ", "return": lambda tr, v: v,
+    }
+    parser, stmts, tail = _translate(read, fail, path, hdr, cfg)
+    out.append("")
+    out += _emit(cfg, parser, stmts, tail, fail, f"`SchemeMatcher::match_request`: `schemesGet s` = `schemes.get(s)`; translated from {path}.")
+
+    # MethodMatcher
+    path = d + "method.rs"
+    src = read(path)
+    if not re.search(r"pub struct MethodMatcher<T> \{\s*methods: HashMap<String, HeaderMatcher<T>>,\s*exclude_methods: HashMap<Vec<String>, HeaderMatcher<T>>,\s*"
+                     r"any_method: HeaderMatcher<T>,", src):
+        fail(f"{path}: `MethodMatcher` no longer has the modelled fields")
+    hdr, (req,) = _sig(src, path, sig, fail)
+    cfg = {
+        "name": "genMethodMatchRequest", "tparams": "{ρ μ η ε : Type}", "params": [("next", "μ → List ρ"), ("listed", "ε → η → Bool")], "args": {},
+        "arg_types": [("methodsGet", "η → Option μ"), ("excludeMethods", "List (ε × μ)"), ("anyMethod", "μ"), ("method", "η")],
+        "self_fields": {"any_method": "anyMethod", "exclude_methods": "excludeMethods"},
+        "self_field_types": {"any_method": "μ", "exclude_methods": "List (ε × μ)"},
+        "abstract": {f"{req}.method()": ("method", "η")},
+        "abstract_calls": {"self.methods.get": ("methodsGet", "Option μ")},
+        "extern_calls": dict(nxt, contains=("listed", ["Bool"], "ε")), "dropped_args": (req,), "vec_type": "List ρ",
+        "result_type": "List ρ", "return": lambda tr, v: v,
+    }
+    parser, stmts, tail = _translate(read, fail, path, hdr, cfg)
+    out.append("")
+    out += _emit(cfg, parser, stmts, tail, fail,
+                 "`MethodMatcher::match_request`: `methodsGet m` = `methods.get(m)`, `excludeMethods` = the entries of `exclude_methods`, "
+                 f"`listed ms m` = `ms.contains(m)`; translated from {path}.")
+
+    # IpMatcher
+    path = d + "ip.rs"
+    src = read(path)
+    if not re.search(r"pub struct IpMatcher<T> \{\s*matchers: HashMap<RouteIp, MethodMatcher<T>>,\s*no_matcher: MethodMatcher<T>,", src):
+        fail(f"{path}: `IpMatcher` no longer has the modelled fields")
+    hdr, (req,) = _sig(src, path, sig, fail)
+    cfg = {
+        "name": "genIpMatchRequest", "tparams": "{ρ μ κ α ι : Type} [BEq ι]",
+        "params": [("next", "μ → List ρ"), ("matchIp", "κ → α → Bool"), ("idOf", "ρ → ι")], "args": {},
+        "arg_types": [("matchers", "List (κ × μ)"), ("noMatcher", "μ"), ("remoteAddr", "Option α")],
+        "self_fields": {"no_matcher": "noMatcher", "matchers": "matchers"},
+        "self_field_types": {"no_matcher": "μ", "matchers": "List (κ × μ)"},
+        "abstract": {f"{req}.remote_addr": ("remoteAddr", "Option α")},
+        "extern_calls": dict(nxt, match_ip=("matchIp", ["Bool"], "κ"), id=("idOf", ["ι"], "ρ")), "dropped_args": (req,),
+        "vec_type": "List ρ", "result_type": "List ρ", "return": lambda tr, v: v,
+    }
+    parser, stmts, tail = _translate(read, fail, path, hdr, cfg)
+    out.append("")
+    out += _emit(cfg, parser, stmts, tail, fail,
+                 "`IpMatcher::match_request` incl. the report-once loop: `matchers` = the entries of the map, `matchIp` = `RouteIp::match_ip`, "
+                 f"`idOf` = `Route::id`; translated from {path}.")
     return out
 
 
